@@ -1168,9 +1168,19 @@ impl Checker {
             }
         }
         // C14: the step in which the limit is first exceeded aborts everything non-terminal
+        // (and so does every later failure while the number is above the limit: tasks
+        // submitted into the open job after the limit was exceeded run until then)
         for (j, job) in &self.model.jobs {
-            if job.limit_exceeded() && !exceeded_before.contains(j) {
-                self.probes.hit("max_fails_tripped");
+            let first = !exceeded_before.contains(j);
+            let failed_now = terminal_events
+                .iter()
+                .any(|(k, what)| k.0 == *j && *what == "failed");
+            if job.limit_exceeded() && (first || failed_now) {
+                self.probes.hit(if first {
+                    "max_fails_tripped"
+                } else {
+                    "max_fails_failure_above_limit"
+                });
                 let before = non_terminal_before.get(j).cloned().unwrap_or_default();
                 for id in before {
                     let st = &job.tasks[&id].state;
@@ -1179,7 +1189,7 @@ impl Checker {
                             out,
                             "C14",
                             "limit-exceeded-task-survives",
-                            "",
+                            if first { "" } else { "later-failure" },
                             format!(
                                 "job {j}: {} failures exceed the limit {:?} but task {id} is still {}",
                                 job.n_failed,
